@@ -12,7 +12,9 @@ import os, sys, json, argparse, importlib, traceback, time
 HERE = os.path.dirname(os.path.abspath(__file__))
 sys.path.insert(0, HERE)
 os.environ.setdefault('DEEPROB_KIT_VERIF', '1')
-os.environ.setdefault('OMP_NUM_THREADS', '4')
+os.environ.setdefault('OMP_NUM_THREADS', '1')
+os.environ.setdefault('MKL_NUM_THREADS', '1')
+os.environ.setdefault('OPENBLAS_NUM_THREADS', '1')
 sys.path.insert(0, os.path.join(HERE, 'hooks'))
 import warnings
 warnings.filterwarnings('ignore')
